@@ -235,7 +235,9 @@ Inductive op :=
 | Destroy (i : nat)
 | Write (i idx : nat) (v : N)          (* w[idx] = v *)
 | FromWrap (i : nat) (kd : kind) (j off n : nat)   (* slot i := T(w_j.data() + off, n) *)
-| ResetWrap (i j off n : nat).         (* w_i.reset(w_j.data() + off, n), j = i allowed (self-aliasing source) *)
+| ResetWrap (i j off n : nat)          (* w_i.reset(w_j.data() + off, n), j = i allowed (self-aliasing source) *)
+| ResizeRef (i n j idx : nat).         (* w_i.resize(n, w_j[idx]): the fill value passed BY REFERENCE to an element of a
+                                          wrapper, j = i allowed (an element of the array being resized) *)
 
 (* construct a T in the free slot i from (data, the n elements there) *)
 Definition build st i (kd : kind) (ptr : option (nat * nat)) (c : list N) : option state :=
@@ -422,6 +424,13 @@ Definition op_write st i idx v : option state :=
   | None => None
   end.
 
+(* a `const T &` argument bound to element idx of wrapper j: its current value; None = not a valid element *)
+Definition elem_ref st (j idx : nat) : option N :=
+  match slot_arr st (slot_at st j) with
+  | Some a => if idx <? a_len a then match arr_index (heap st) a idx with RVal v => Some v | _ => None end else None
+  | None => None
+  end.
+
 Definition step (st : state) (o : op) : option state :=
   match o with
   | SrcSet k c =>
@@ -476,6 +485,9 @@ Definition step (st : state) (o : op) : option state :=
       match resolve_wrap st j off n with Some (q, c) => build st i kd q c | None => None end
   | ResetWrap i j off n =>
       match resolve_wrap st j off n with Some (q, c) => assign_from st i false q c | None => None end
+  | ResizeRef i n j idx =>
+      (* the value the reference designates BEFORE the call is the fill value, whatever the call does to that storage *)
+      match elem_ref st j idx with Some v => op_resize st i n v | None => None end
   end.
 
 (* an operation whose precondition fails is skipped (state unchanged) *)
